@@ -1,6 +1,7 @@
 // C06: loss, duplication, reordering, version / type corruption never yield a corrupted packet, and the
 // decoder recovers. Model-free oracles: O1 integrity via unique ids embedded in the content, O2 recovery.
 #pragma once
+#include "failpoint.h"
 #include <map>
 
 #include "dec_common.h"
@@ -185,11 +186,13 @@ enum FaultKind
     F_TYPE,
     F_KINDS,        // the five single-frame faults of the exhaustive part end here
     F_BURST_DROP,   // `dist` consecutive frames lost
-    F_DISPLACE      // one frame moved `dist` positions later
+    F_DISPLACE,     // one frame moved `dist` positions later
+    F_ALLOC         // the decode call for this frame is cut short by std::bad_alloc at allocation number dist / 2 of that call
+                    // (a frame lost half-way through its processing); dist odd: the frame is offered again straight away
 };
 inline const char* faultName(int k)
 {
-    static const char* n[] = {"drop", "dup", "swap", "corrupt-version", "corrupt-type", "?", "burst-drop", "displace"};
+    static const char* n[] = {"drop", "dup", "swap", "corrupt-version", "corrupt-type", "?", "burst-drop", "displace", "allocation-failure"};
     return n[k];
 }
 struct Fault
@@ -204,6 +207,8 @@ struct FFrame
     int orig;        // index into StreamSet::frames
     bool corrupted;  // version / type changed
     Bytes raw;
+    long failAlloc = -1;  // >= 0: this allocation of the decode call fails
+    bool retry = false;   // the frame is offered again after the failed call
 };
 
 inline std::vector<FFrame> applyFaults(const StreamSet& S, const std::vector<Fault>& faults, Rng& r, std::string& log, uint64_t& sig, bool& hitSegmented)
@@ -247,6 +252,11 @@ inline std::vector<FFrame> applyFaults(const StreamSet& S, const std::vector<Fau
                 L.erase(L.begin() + static_cast<long>(p), L.begin() + static_cast<long>(p + n));
                 break;
             }
+            case F_ALLOC:
+                L[p].failAlloc = static_cast<long>(f.dist / 2);
+                L[p].retry = f.dist % 2;
+                log += "allocation-failure(" + std::to_string(p) + ",allocation " + std::to_string(f.dist / 2) + (L[p].retry ? ",frame offered again) " : ") ");
+                break;
             case F_DISPLACE:
             {
                 size_t q = std::min(L.size() - 1, p + f.dist);
@@ -316,7 +326,7 @@ inline void runFaulted(Ctx& c, const StreamSet& S, const std::vector<FFrame>& L,
         {
             const FFrame& ff = L[idxs[p]];
             const OFrame& of = S.frames[static_cast<size_t>(ff.orig)];
-            if (ff.corrupted)
+            if (ff.corrupted || ff.failAlloc >= 0)
                 continue;
             if (of.role == 0)
             {
@@ -338,7 +348,7 @@ inline void runFaulted(Ctx& c, const StreamSet& S, const std::vector<FFrame>& L,
                 for (size_t k = 0; k < n && ok; ++k)
                 {
                     const FFrame& g = L[idxs[p + 1 - n + k]];
-                    if (g.corrupted || g.orig != m.frames[k])
+                    if (g.corrupted || g.failAlloc >= 0 || g.orig != m.frames[k])
                         ok = false;
                 }
                 if (ok)
@@ -351,7 +361,11 @@ inline void runFaulted(Ctx& c, const StreamSet& S, const std::vector<FFrame>& L,
     // a copy of the decoder taken somewhere in the faulted stream and fed the same frames from then on, next to the original:
     // it is a decoder with the same history and owes the same deliveries
     std::unique_ptr<ASAM::CMP::Decoder> twin;
-    const size_t twinAt = (L.size() >= 3 && L.size() <= 400) ? mix64(L.size(), L[0].raw.size()) % (L.size() - 1) : L.size();
+    bool anyAllocFault = false;
+    for (auto& f : L)
+        anyAllocFault = anyAllocFault || f.failAlloc >= 0;
+    // (a twin cannot be given "the same" aborted call: none in streams with allocation failures)
+    const size_t twinAt = (L.size() >= 3 && L.size() <= 400 && !anyAllocFault) ? mix64(L.size(), L[0].raw.size()) % (L.size() - 1) : L.size();
     std::vector<Bytes> fed;
     char buf[300];
     std::map<int, std::vector<size_t>> deliveredAt;
@@ -368,7 +382,36 @@ inline void runFaulted(Ctx& c, const StreamSet& S, const std::vector<FFrame>& L,
         const bool twinFirst = twin && (call % 2 == 0);
         if (twinFirst)
             gotTwin = decodeCopy(*twin, L[call].raw);
-        auto got = decodeCopy(dec, L[call].raw);
+        std::vector<std::shared_ptr<ASAM::CMP::Packet>> got;
+        if (L[call].failAlloc >= 0)
+        {
+            // only the library's own allocations are counted: the frame is copied beforehand
+            Bytes copy = L[call].raw;
+            bool threw = false;
+            {
+                vf::fp::FailAt f(L[call].failAlloc);
+                try
+                {
+                    got = dec.decode(copy.data(), copy.size());
+                }
+                catch (const std::bad_alloc&)
+                {
+                    threw = true;
+                }
+            }
+            c.count(threw ? "decode_calls_cut_short_by_an_allocation_failure" : "allocation_failpoints_beyond_the_calls_last_allocation");
+            if (threw)
+            {
+                got.clear();
+                if (L[call].retry)
+                {
+                    got = decodeCopy(dec, L[call].raw);
+                    c.count("frames_offered_again_after_an_allocation_failure");
+                }
+            }
+        }
+        else
+            got = decodeCopy(dec, L[call].raw);
         if (twin && !twinFirst)
             gotTwin = decodeCopy(*twin, L[call].raw);
         if (twin)
@@ -515,6 +558,10 @@ inline void randomCase(Ctx& c, long idx)
     if (r.chance(1, 2))
         for (size_t i = 1; i < faults.size(); ++i)
             faults[i].pos = faults[0].pos + r.below(4);
+    // one stream in five: decode calls cut short by an allocation failure (applied last, so that they sit on final positions)
+    if (r.chance(1, 5))
+        for (size_t i = 0, n = r.range(1, 4); i < n; ++i)
+            faults.push_back({F_ALLOC, r.below(S.frames.size()), r.below(16)});
     std::string log;
     uint64_t sig;
     bool hit;
@@ -577,11 +624,42 @@ inline void burstCase(Ctx& c, long idx, bool deterministic)
         c.sample("long stream: frames=" + std::to_string(S.frames.size()) + " faults=" + log, 5);
 }
 
+// deterministic: canonical stream j (the 16 of the pair sweep): at every frame position every allocation of that decode call fails
+// in turn (numbers 0..7, which is more than any call on these streams makes), with and without the frame being offered again,
+// alone and behind one ordinary fault
+inline void allocSweep(Ctx& c, long j)
+{
+    Rng gr = c.fixedRng(j, 11);
+    StreamSet S = genStreams(gr, 1 + static_cast<size_t>(j % 3), 8 + static_cast<size_t>(j % 4));
+    while (S.frames.size() > 12)
+        S = genStreams(gr, 1 + static_cast<size_t>(j % 3), 7);
+    for (size_t pos = 0; pos < S.frames.size(); ++pos)
+        for (size_t d = 0; d < 16; ++d)
+            for (int withOther = 0; withOther < 2; ++withOther)
+            {
+                std::vector<Fault> faults;
+                if (withOther)
+                    faults.push_back({static_cast<int>((pos + d) % F_KINDS), (pos + 1 + d) % S.frames.size(), 1});
+                faults.push_back({F_ALLOC, pos, d});
+                Rng r = c.fixedRng(j * 4096 + static_cast<long>(pos * 32 + d * 2) + withOther, 13);
+                std::string log;
+                uint64_t sig;
+                bool hit;
+                auto L = applyFaults(S, faults, r, log, sig, hit);
+                runFaulted(c, S, L, log);
+                if (hit)
+                    c.sig(mix64(sig, static_cast<uint64_t>(j) + 0xa110c));
+                c.count("fault_sequences");
+                c.count("exhaustive_allocation_failure_points");
+            }
+}
+
 constexpr long kPairCases = 16 * 61;
 constexpr long kBurstDet = 200;
+constexpr long kAllocDet = 16;
 inline long count(Ctx& c)
 {
-    return kPairCases + kBurstDet + (c.thorough() ? 2400000 : 16000);
+    return kPairCases + kBurstDet + kAllocDet + (c.thorough() ? 2400000 : 16000);
 }
 inline void run(Ctx& c, long idx)
 {
@@ -589,6 +667,8 @@ inline void run(Ctx& c, long idx)
         return pairSweep(c, idx);
     if (idx < kPairCases + kBurstDet)
         return burstCase(c, idx - kPairCases, true);
+    if (idx < kPairCases + kBurstDet + kAllocDet)
+        return allocSweep(c, idx - kPairCases - kBurstDet);
     if (idx % 16 == 5)
         return burstCase(c, idx, false);
     randomCase(c, idx);
